@@ -256,9 +256,58 @@ def maps_config():
             SBool(z3.ForAll([j], z3.Implies(z3.And(1 <= j, j <= n - 2, z3.Not(BANG(j))), z3.And(M[t] == POS(j), RI[t] == z3.If(PARF(j), 1, 0), O[t] == z3.If(PARB(j), 1, 0)))))
         ex.prove(st, 'mustfail:no chain has a cell', SBool(m == 0), ex.fn, expect='refuted')
 
+    def replay(model, obl, ex):
+        ev = lambda e: model.eval(e, model_completion=True)
+        n = ev(ex.g['n']).as_long()
+        if not 2 <= n <= 30:
+            return None
+        return 'contracts.stil_c:run_maps', {'markers': [bool(z3.is_true(ev(BANG(z3.IntVal(k))))) for k in range(1, n - 1)]}
+
+    def finite(ex):
+        return -1, 6, [ex.g['n'] <= 6]
     contract = {'post': post, 'assign_hook': assign_hook, 'merge_ifs': True,
                 'loops': {0: {'inv': fwd_inv, 'kinds': {'inversion': 'bool', 'n': 'keep'}}, 1: {'inv': bwd_inv, 'kinds': {'inversion': 'bool', 'n': 'keep'}}}}
-    return Config('any chain (cells and inverter markers in any order)', contract, setup, None)
+    cfg = Config('any chain (cells and inverter markers in any order)', contract, setup, replay, finite=finite)
+    cfg.small = lambda ex: [ex.g['n'] <= 7]
+    return cfg
+
+
+def run_maps(args):
+    """the real StilFile._maps on a one-chain design with the given marker pattern against the statement of the contract"""
+    from kyupy.circuit import Circuit, Node
+    from kyupy.stil import StilFile
+    import numpy as np
+    c = Circuit('chain')
+    si, so = Node(c, 'si', 'input'), Node(c, 'so', 'output')
+    c.io_nodes.append(si)
+    c.io_nodes.append(so)
+    items, cells = [], []
+    for k, bang in enumerate(args['markers']):
+        if bang:
+            items.append('!')
+        else:
+            nm = f'ff{k}'
+            Node(c, nm, 'DFF')
+            items.append(nm)
+            cells.append(nm)
+    sf = object.__new__(StilFile)
+    sf.signal_groups = {'_pi': ['si'], '_po': ['so']}
+    sf.scan_chains = {'chain1': ['si'] + items + ['so']}
+    try:
+        interface, pi_map, po_map, scan_maps, scan_inv = sf._maps(c)
+    except Exception as e:  # noqa
+        return {'reproduced': True, 'observed': repr(e)}
+    pos = {n.name: i for i, n in enumerate(interface)}
+    want_map, want_in, want_out = [], [], []
+    for j in range(len(items) - 1, -1, -1):            # from the scan-out end
+        if items[j] == '!':
+            continue
+        want_map.append(pos[items[j]])
+        want_in.append(sum(1 for x in items[:j] if x == '!') % 2)
+        want_out.append(sum(1 for x in items[j + 1:] if x == '!') % 2)
+    got = (list(scan_maps['si']), list(scan_maps['so']), [int(bool(v)) for v in np.asarray(scan_inv['si']).ravel()], [int(bool(v)) for v in np.asarray(scan_inv['so']).ravel()])
+    want = (want_map, want_map, want_in, want_out)
+    return {'reproduced': got != want, 'observed': [list(map(int, g)) for g in got], 'expected': [list(map(int, w)) for w in want], 'chain': sf.scan_chains['chain1']}
 
 
 def targets():
